@@ -23,7 +23,7 @@ import (
 func TestMain(m *testing.M) { vlib.Main(m) }
 
 // key values: fragments chosen so that textual joins with '_' ',' '/' collide
-var keyVals = []string{"x", "y", "x_y", "y_x", "x_x", "x/y", "x y", "x:y", "x=y", "[x]", "x]y", "x[y", "x.y", "*", "a", "a/b", "eth1", "eth10", "x\\y"}
+var keyVals = []string{"x", "y", "x_y", "y_x", "x_x", "x/y", "x y", "x:y", "x=y", "[x]", "x]y", "x[y", "x.y", "*", "a", "a/b", "eth1", "eth10", "x\\y", "cfg"}
 var keyValsComma = []string{"x,y", "y,x", ","}
 
 var tmplPaths = []string{
@@ -31,6 +31,7 @@ var tmplPaths = []string{
 	"plain/l1/descr", "plain/l1/descr-long", "plain/l1/mtu", "plain/l1/cfg/mode", "plain/l1/cfg/pres", "plain/l1/sub/v", "plain/l1/extattr",
 	"plain/l2a/v", "plain/l2a/w", "plain/l3a/v", "plain/ifc/v", "plain/ifc-ext/v",
 	"plain/l2z/v", "plain/l3/v",
+	"plain/l1/cfg/descr",
 }
 var tmpls []vlib.Tmpl
 
@@ -113,6 +114,10 @@ var recipes = [][2]string{
 	{"/plain/l3a[k1=XY][k2=Z][k3=X]/v", "/plain/l3a[k1=X][k2=YZ][k3=X]/v"},
 	{"/plain/l2z[zone=XY][name=Z]/v", "/plain/l2z[zone=X][name=ZY]/v"},
 	{"/plain/l1[name=XY]/sub[id=1]/v", "/plain/l1[name=X]/sub[id=1]/v"},
+	// an entry whose key value is the name of a child container of the list: the element sequences spell alike
+	{"/plain/l1[name=X]/cfg/descr", "/plain/l1[name=cfg]/descr"},
+	{"/plain/l1[name=cfg]/descr", "/plain/l1[name=X]/cfg/descr"},
+	{"/plain/l1[name=cfg]/cfg/mode", "/plain/l1[name=cfg]/descr"},
 }
 var recipeFrags = []string{"x", "y", "z", "x/y", "x y", "x:y", "[x]", "a", "x.y"}
 
